@@ -45,6 +45,16 @@ macro_rules! write_period_separated {
     };
 }
 
+/// Returns the digits after the decimal point for the nanoseconds part
+/// of a time. The digits are a fraction so leading zeros are significant.
+fn fraction_of_second(nano: u32) -> String {
+    if nano == 0 {
+        return String::from("00");
+    }
+    let digits = format!("{:09}", nano);
+    String::from(digits.trim_end_matches('0'))
+}
+
 pub fn apply(lib: &Library) -> Result<String, Vec<Diagnostic>> {
     let mut visitor = LibraryRenderer::new();
     visitor
@@ -251,11 +261,14 @@ impl Visitor<Diagnostic> for LibraryRenderer {
         &mut self,
         node: &TimeOfDayLiteral,
     ) -> Result<Self::Value, Diagnostic> {
-        let (hr, min, sec, milli) = node.hmsm();
+        let (hr, min, sec, nano) = node.hmsn();
         self.write_ws(
             format!(
-                "TIME_OF_DAY#{:0>2}:{:0>2}:{:0>2}.{:0>2}",
-                hr, min, sec, milli
+                "TIME_OF_DAY#{:0>2}:{:0>2}:{:0>2}.{}",
+                hr,
+                min,
+                sec,
+                fraction_of_second(nano)
             )
             .as_str(),
         );
@@ -272,12 +285,18 @@ impl Visitor<Diagnostic> for LibraryRenderer {
         &mut self,
         node: &DateAndTimeLiteral,
     ) -> Result<Self::Value, Diagnostic> {
-        let (hr, min, sec, milli) = node.hmsm();
+        let (hr, min, sec, nano) = node.hmsn();
         let (year, month, day) = node.ymd();
         self.write_ws(
             format!(
-                "DATE_AND_TIME#{:0>4}-{:0>2}-{:0>2}-{:0>2}:{:0>2}:{:0>2}.{:0>2}",
-                year, month, day, hr, min, sec, milli
+                "DATE_AND_TIME#{:0>4}-{:0>2}-{:0>2}-{:0>2}:{:0>2}:{:0>2}.{}",
+                year,
+                month,
+                day,
+                hr,
+                min,
+                sec,
+                fraction_of_second(nano)
             )
             .as_str(),
         );
